@@ -72,7 +72,7 @@ def big(x):
 # --------------------------------------------------------------------------
 # running TLC
 # --------------------------------------------------------------------------
-_VERDICT = re.compile(r'^<<"V",')
+_VERDICT = re.compile(r'^<<\s*"V",')
 
 
 def _split_top(s):
@@ -174,7 +174,7 @@ class TLCResult:
                 buf += " " + line.strip()
             if buf is not None and _balanced(buf):
                 try:
-                    self.verdicts.append(parse_value(buf)[1:])
+                    self.verdicts.append(parse_value(re.sub(r"\s+", " ", buf))[1:])
                 except Exception as e:  # pragma: no cover
                     raise MachineryError(f"unparsable verdict line {buf!r}: {e}")
                 buf = None
